@@ -99,7 +99,7 @@ br_ecdsa_i31_vrfy_raw(const br_ec_impl *impl,
 	if (!br_i31_decode_mod(s, (const unsigned char *)sig + rlen, rlen, n)) {
 		return 0;
 	}
-	if (br_i31_iszero(s)) {
+	if (br_i31_iszero(r) || br_i31_iszero(s)) {
 		return 0;
 	}
 
